@@ -1255,7 +1255,7 @@ class UTPM(Ring, RawAlgorithmsMixIn):
         for i in range(x.size-1, 0, -1):
             zbar[i-1] += zbar[i]*x[i]
             xbar[i]   += zbar[i]*z[i-1]
-        xbar[0] = zbar[0]
+        xbar[0] += zbar[0]
         return xbar
 
         # z = y.copy()
